@@ -9,14 +9,16 @@ import (
 type subInfo struct {
 	key      string
 	notifier INotifier
+	unsub    bool
 }
 
 // subPub is a wrapper for the publish-subscribe function
 type subPub struct {
 	keyToNotifier sync.Map
 
-	subInfoChan   chan subInfo
-	unsubInfoChan chan subInfo
+	// one queue for subscriptions and unsubscriptions, so that an
+	// unsubscription is never handled before its own subscription
+	infoChan chan subInfo
 }
 
 type SubPub interface {
@@ -33,8 +35,7 @@ type SubPub interface {
 // NewSubPub return a subPub
 func NewSubPub() *subPub {
 	s := &subPub{
-		subInfoChan:   make(chan subInfo, 50),
-		unsubInfoChan: make(chan subInfo, 50),
+		infoChan: make(chan subInfo, 100),
 	}
 	go s.process()
 	return s
@@ -54,11 +55,12 @@ func (s *subPub) Subscribe(iNotifier INotifier, nameSpace string, kind string, p
 		notifier: iNotifier,
 	}
 
-	s.subInfoChan <- info
+	s.infoChan <- info
 
 	go func() {
 		<-iNotifier.Err()
-		s.unsubInfoChan <- info
+		info.unsub = true
+		s.infoChan <- info
 	}()
 
 	return nil
@@ -66,9 +68,10 @@ func (s *subPub) Subscribe(iNotifier INotifier, nameSpace string, kind string, p
 
 // a goroutine to process subscription and unsubscription, start after you call NewSubPub
 func (s *subPub) process() {
-	for {
-		select {
-		case info := <-s.subInfoChan:
+	for info := range s.infoChan {
+		info := info
+		switch info.unsub {
+		case false:
 			var slice []*subInfo
 			v, ok := s.keyToNotifier.Load(info.key)
 			if !ok {
@@ -78,7 +81,7 @@ func (s *subPub) process() {
 			}
 			slice = append(slice, &info)
 			s.keyToNotifier.Store(info.key, slice)
-		case info := <-s.unsubInfoChan:
+		case true:
 			v, ok := s.keyToNotifier.Load(info.key)
 			if !ok {
 				continue
